@@ -214,6 +214,13 @@ def work(item):
                     inputs.setdefault(x, 'edit')
                 for x in (v.replace('-', ''), v[:3] + '-' + v[3:], ' ' + v, v.lower()):
                     inputs.setdefault(x, 'spelling')
+        # what the wrapper itself accepts (E2 over the wrapper: numbers that no constituent may know about)
+        wvals, t0 = valid_numbers(key, tier)
+        tr += t0
+        for v in wvals:
+            inputs.setdefault(v, 'wrapper-valid')
+            for x in neighbours(v)[:30 if quick else 100000]:
+                inputs.setdefault(x, 'wrapper-edit')
         for ln in range(0, 4):
             for x in core.__dict__.get('_short', None) or _short('0123456789-', ln):
                 inputs.setdefault(x, 'short')
